@@ -250,7 +250,7 @@ Qed.
 (* INTEGER and DECIMAL *)
 
 Definition dot_digit (rest : text) : bool :=
-  match rest with 46 :: d :: _ => is_digit d | _ => false end.
+  match rest with c :: d :: _ => (c =? 46) && is_digit d | _ => false end.
 
 Lemma span_digits : forall n rest, forallb is_digit n = true -> next_not is_digit rest = true ->
   span_len is_digit (n ++ rest) = length n.
@@ -339,7 +339,8 @@ Proof.
       change (S (length n')) with (length (c :: n')). rewrite skipn_app_exact.
       destruct rest as [|d [|e r]]; try (cbn; lia).
       * destruct (d =? 46); cbn; lia.
-      * destruct (N.eqb_spec d 46) as [->|]; [|cbn; lia]. cbn [dot_digit] in Hd. cbn [span_len]. rewrite Hd. cbn. lia.
+      * destruct (N.eqb_spec d 46) as [->|]; [|cbn; lia]. cbn [dot_digit] in Hd. change (46 =? 46) with true in Hd.
+        cbn [andb] in Hd. cbn [span_len]. rewrite Hd. cbn. lia.
     + apply Forall_forall. intros r Hin. cbn [app]. pose proof (after_decimal_short c (n' ++ rest) r Hin Hc). lia.
   - exact I.
 Qed.
